@@ -119,6 +119,32 @@ def options_vs_coords(rng):
     return None
 
 
+R90 = np.array([[0.0, -1.0, 0.0], [1.0, 0.0, 0.0], [0.0, 0.0, 1.0]])
+
+
+def diagonal_cases(rng):
+    """structures over ground with a sloping wire that ends on the ground and runs exactly along a diagonal
+    (dx = -dy or dx = dy) or along an axis, grounded at its first or second end; a quarter turn about the
+    vertical axis (exact in floats) maps the diagonals onto each other"""
+    out = []
+    f = 14.0
+    lam = 299.8 / f
+    seg = lam / 30
+    for (dx, dy) in ((-3.0, 3.0), (3.0, 3.0), (3.0, -3.0), (4.0, 0.0), (0.0, -4.0), (-1.0, 2.0)):
+        for end2 in (False, True):
+            n = rng.randint(4, 6)
+            h = rng.choice([3.0, 4.0, 6.0])
+            L = math.sqrt(dx * dx + dy * dy + h * h)
+            sc = seg * n / L
+            top = [dx * sc, dy * sc, h * sc]
+            w = dict(nseg=n, p0=[0.0, 0.0, 0.0], p1=top, r=seg / 40) if not end2 else dict(nseg=n, p0=top, p1=[0.0, 0.0, 0.0], r=seg / 40)
+            wires = [w]
+            if rng.random() < 0.5:
+                wires.append(dict(nseg=3, p0=top, p1=[top[0] + 3 * seg, top[1] + seg, top[2]], r=seg / 40))
+            out.append(dict(f=f, ground=True, wires=wires, family='diagonal-sloper', lam=lam, seg=seg))
+    return out
+
+
 def replay(rp):
     if 'ant' not in rp:
         print('replay: nothing to execute:', rp.get('kind'))
@@ -150,6 +176,16 @@ def run(ck):
         bad = property_on_impl(ant, ss, R, t, s)
         if bad:
             viol.append(dict(kind='motion', ant=ant, src_seed=ss, R=R.tolist(), t=t.tolist(), s=s, observed=bad))
+    for ant in diagonal_cases(rng):
+        for R in (R90, R90 @ R90, rotmat(0, 0, 45.0)):
+            ss = rng.randrange(10 ** 9)
+            ck.case(('diagonal', tuple(ant['wires'][0]['p1']), tuple(ant['wires'][0]['p0']), float(R[0, 0])), True)
+            a, sp, st = c02.evaluate(d, moved(ant, R, np.zeros(3), 1.0))
+            if a:
+                dis.append(dict(ant=moved(ant, R, np.zeros(3), 1.0), why=a))
+            bad = property_on_impl(ant, ss, R, np.zeros(3), 1.0)
+            if bad:
+                viol.append(dict(kind='motion', ant=ant, src_seed=ss, R=R.tolist(), t=[0.0, 0.0, 0.0], s=1.0, observed=bad))
     for i in range(10 if ck.tier == 'quick' else 100):
         bad = options_vs_coords(rng)
         ck.case(('options', i), True)
